@@ -18,9 +18,9 @@
        (upgrade_ok; the first installation of a plugin, which creates that directory, is covered by the
        differential run only), stated per database and for every database configuration at once;
      - AddRepository, in full.
-   The completeness of the NEW binary after the rename is shown on the witness and by the differential run, not
-   proved in general; the JSON written for the handler file / repository entry is assumed to decode (u_ext, Hdec). *)
-From Octo Require Import Plugins PluginsFs PluginsFsProofs.
+   The JSON written for the handler file / repository entry is proved to decode again (Proofs/PluginsJson.v:
+   json_roundtrip), for names, extensions and URLs of printable ASCII without quote, backslash, <, >, &. *)
+From Octo Require Import Plugins PluginsFs PluginsJson PluginsFsProofs.
 
 (* Install, every crash point k and every torn length: for every database d (not of the reserved repository name
    ".staging") start-up decides exactly what it decided before — or, only after the rename (k beyond the staging
@@ -36,6 +36,26 @@ Theorem C27_crash_safe_partial : forall f0 i k torn d,
 Proof. exact install_crash_safe. Qed.
 Print Assumptions C27_crash_safe_partial.
 
+
+(* Once the version directory has been renamed into place (k beyond the staging phase), the plugin binary of the new
+   version is there with exactly the content of the archive member — at every later crash point and torn length.
+   (Stated for an empty staging directory at the start, archive member names distinct and different from
+   archive.tar.gz.) *)
+Theorem C27_new_binary_complete : forall f0 i k torn c,
+  upgrade_ok f0 i ->
+  (forall q, under S q = true -> fs_get f0 q = None) ->
+  NoDup (map fst (i_members i)) -> ~ In s_archive (map fst (i_members i)) ->
+  In (dir_of (i_name i), c) (i_members i) ->
+  (length (phaseA f0 i) < k)%nat ->
+  fs_get (crash (install_ops f0 i) f0 k torn) (N i ++ [dir_of (i_name i)]) = Some (File c).
+Proof. exact install_new_binary. Qed.
+Print Assumptions C27_new_binary_complete.
+
+(* The flat JSON that Install and AddRepository write decodes to what was encoded. *)
+Theorem C27_json_roundtrip : forall m, Forall safe_pair m -> json_decode (json_encode m) = Some m.
+Proof. exact json_roundtrip. Qed.
+Print Assumptions C27_json_roundtrip.
+
 (* AddRepository, every crash point and torn length: start-up and all binaries are unaffected and, if every
    repository entry decoded before, every repository entry decodes afterwards. *)
 Theorem C27_repository_add_crash_safe : forall f0 a k torn d,
@@ -43,7 +63,7 @@ Theorem C27_repository_add_crash_safe : forall f0 a k torn d,
   (fs_get f0 [s_repositories] = None \/ exists ns, fs_get f0 [s_repositories] = Some (Dir ns)) ->
   (forall q, under (repo_entry a) q = true -> q <> repo_entry a -> fs_get f0 q = None) ->
   (forall ns, fs_get f0 (repo_entry a) <> Some (Dir ns)) ->
-  json_decode (repo_data a) <> None ->
+  safe_str (r_url a) = true ->
   let f := crash (add_ops a) f0 k torn in
   startup_db f d = startup_db f0 d /\ (forall v, binary_of f d v = binary_of f0 d v) /\
   (repos_ok f0 = true -> repos_ok f = true).
